@@ -75,6 +75,34 @@ func simrand() uint64 {
 }
 '''
 
+HASH_APPEND = '''
+
+const simSeedMark = 0x5eed // low 16 bits of the seed of a map created during a simulated run
+
+func simseed() uintptr {
+	if SimState == 0 {
+		s := uintptr(rand())
+		if s&0xffff == simSeedMark {
+			s ^= 1
+		}
+		return s
+	}
+	return uintptr(simrand())&^0xffff | simSeedMark
+}
+
+func simHasher(typ *abi.MapType, key unsafe.Pointer, seed uintptr) uintptr {
+	h := typ.Hasher(key, seed)
+	if seed&0xffff == simSeedMark {
+		switch typ.Key.Kind() {
+		case abi.Pointer, abi.Interface, abi.Chan, abi.UnsafePointer:
+			const low = uintptr(1)<<40 - 1
+			return h&^low | (seed*0x9e3779b97f4a7c15)&low
+		}
+	}
+	return h
+}
+'''
+
 def main():
     out = os.path.abspath(sys.argv[1])
     os.makedirs(out, exist_ok=True)
@@ -98,13 +126,38 @@ def main():
     open(tp, "w").write(tab)
     ov = {"Replace": {sel_path: sp, tab_path: tp}}
     # map hash seeds (m.seed = uintptr(rand())): seeded too, so that maps with
-    # more than one group iterate in a reproducible order for value-typed keys
-    map_path = os.path.join(root, "src/internal/runtime/maps/map.go")
+    # more than one group iterate in a reproducible order for value-typed keys.
+    # Maps keyed by pointers, interfaces or channels hash an *address*: their
+    # order would still depend on where the allocator put things. A map created
+    # while a simulated run is in progress gets a marked seed, and for such a
+    # map the low 40 bits of every pointer-ish key's hash are replaced by a
+    # per-map constant: all keys probe from the same slot, so within one table
+    # (up to ~900 entries) slots are filled in insertion order and iteration is
+    # a function of the map's history alone. The upper bits (which pick the
+    # table of a larger map) stay real, so nothing degenerates when a map
+    # outgrows one table - it merely stops being reproducible, as before.
+    mdir = os.path.join(root, "src/internal/runtime/maps")
+    map_path = os.path.join(mdir, "map.go")
     mp_src = open(map_path).read()
     if mp_src.count("uintptr(rand())") >= 1:
-        mp = os.path.join(out, "map.go.txt")
-        open(mp, "w").write(mp_src.replace("uintptr(rand())", "uintptr(simrand())"))
-        ov["Replace"][map_path] = mp
+        mp_src = mp_src.replace("uintptr(rand())", "simseed()")
+    srcs = {map_path: mp_src, tab_path: tab}
+    for fn in ("runtime.go", "runtime_fast32.go", "runtime_fast64.go", "runtime_faststr.go"):
+        fp = os.path.join(mdir, fn)
+        if os.path.exists(fp):
+            srcs[fp] = open(fp).read()
+    nsites = 0
+    for fp in list(srcs):
+        nsites += srcs[fp].count("typ.Hasher(")
+        srcs[fp] = srcs[fp].replace("typ.Hasher(", "simHasher(typ, ")
+    if nsites < 10:
+        print("rtoverlay: hasher call sites not found", file=sys.stderr)
+        sys.exit(3)
+    srcs[tab_path] += HASH_APPEND
+    for fp, txt in srcs.items():
+        op2 = os.path.join(out, os.path.basename(fp) + ".txt")
+        open(op2, "w").write(txt)
+        ov["Replace"][fp] = op2
     # a goroutine of the bubble waiting for a sync.Mutex / RWMutex counts as idle
     # for synctest.Wait, like one waiting on a sync.Cond: dependencies that run
     # inside the simulation (net/http, crypto/tls, gorilla) hold mutexes of their
